@@ -117,9 +117,10 @@ def h_extend_contract(eng):
     if p_self == "real" and p_other == "real":
         from pyvc.values import PathEnd
         raise PathEnd()        # the same package defined twice: outside "a split of one library"
+    real_type = ["package", "class"][eng.choice(2)]                 # the enclosing class need not be declared `package`
     a_self, a_other = bool(eng.choice(2)), bool(eng.choice(2))     # model P.A on either side
     q_side = ["none", "self", "other", "both-placeholder-and-real"][eng.choice(4)]   # nested package P.Q
-    eng.input("pattern", {"P in self": p_self, "P in other": p_other, "P.A in self": a_self, "P.A in other": a_other, "P.Q": q_side})
+    eng.input("pattern", {"P in self": p_self, "P in other": p_other, "P.A in self": a_self, "P.A in other": a_other, "P.Q": q_side, "declared as": real_type})
 
     def package(side, kind):
         if kind == "absent":
@@ -131,7 +132,7 @@ def h_extend_contract(eng):
             real_q = (q_side == side) or (side == "other")
             kids.append(mk_class(A, "Q", "package", {"symbols": ["g"]} if real_q else {}, [mk_class(A, "C_" + side, "model", {"symbols": ["z"]}, [])]))
         content = {"symbols": ["k"], "imports": ["I"], "extends": ["X"]} if kind == "real" else {}
-        return mk_class(A, "P", "package", content, kids)
+        return mk_class(A, "P", real_type if kind == "real" else "package", content, kids)
     ps, po = package("self", p_self), package("other", p_other)
     other_top = mk_class(A, "Other", "model", {"symbols": ["o"]}, [])
     t_self = mk_tree(A, [c for c in [ps] if c is not None])
@@ -157,9 +158,10 @@ FILES = {
     "pkg": lambda A: mk_tree(A, [mk_class(A, "P", "package", {"symbols": ["k"]}, [mk_class(A, "A", "model", {"symbols": ["x"], "equations": ["e1"]}, [])])]),
     "within-P": lambda A: mk_tree(A, [mk_class(A, "P", "package", {}, [mk_class(A, "B", "model", {"symbols": ["y"], "equations": ["e2"]}, [])])]),
     "within-P.Q": lambda A: mk_tree(A, [mk_class(A, "P", "package", {}, [mk_class(A, "Q", "package", {}, [mk_class(A, "C", "model", {"symbols": ["z"]}, [])])])]),
+    "class-top": lambda A: mk_tree(A, [mk_class(A, "P", "class", {"symbols": ["w"]}, [mk_class(A, "T", "model", {"symbols": ["t"]}, [])])]),
     "Q-itself": lambda A: mk_tree(A, [mk_class(A, "P", "package", {}, [mk_class(A, "Q", "package", {"symbols": ["g"], "imports": ["J"]}, [])])]),
 }
-SPLITS = [("pkg", "within-P", "within-P.Q"), ("pkg", "within-P.Q", "Q-itself"), ("within-P", "Q-itself", "within-P.Q"), ("pkg", "within-P", "Q-itself")]
+SPLITS = [("class-top", "within-P", "within-P.Q"), ("pkg", "within-P", "within-P.Q"), ("pkg", "within-P.Q", "Q-itself"), ("within-P", "Q-itself", "within-P.Q"), ("pkg", "within-P", "Q-itself")]
 
 
 def h_order_independence(eng):
